@@ -7,7 +7,7 @@ par=${SEEDREG_PAR:-3}
 run_one() {
   name=$1; wt=/tmp/seedreg.$$.$name
   git -C /repo worktree add -q --detach $wt HEAD || { echo "$name worktree-failed"; return; }
-  if ! git -C $wt apply "$PWD/seeded/$name/patch.diff" 2>/dev/null; then echo "$name patch-no-longer-applies"; git -C /repo worktree remove --force $wt; return; fi
+  if ! git -C $wt apply "$PWD/seeded/$name/patch.diff" 2>/dev/null && ! git -C $wt apply --3way "$PWD/seeded/$name/patch.diff" 2>/dev/null; then echo "$name patch-no-longer-applies"; git -C /repo worktree remove --force $wt; return; fi
   checks=$(python3 -c "import json;print(' '.join(json.load(open('seeded/$name/meta.json')).get('caught_by') or ['${name:0:3}']))")
   res=""
   for c in $checks; do
